@@ -51,6 +51,103 @@ def one(name, pattern, text, path, count=1):
     return ms[0].groups()
 
 
+def offsets_loops(gen_text):
+    sys.path.insert(0, os.path.dirname(os.path.abspath(__file__)))
+    import _minicpp as mc
+    try:
+        params, body, line = mc.find_function(gen_text, r'\bvoid\s+generator\s*::\s*write_static_offsets\b', 'write_static_offsets')
+        if re.sub(r'\s+', '', params) != 'constdetail::method_info&method,std::ostream&os':
+            raise mc.Unsupported('write_static_offsets: parameter list changed: ' + params)
+        ast = mc.parse_function_body(body)
+    except mc.Unsupported as e:
+        die('pattern offsets (AST): ' + str(e))
+    arity_names = set()
+
+    def lin(e, var):
+        """linear form {a: coefficient of arity, i: of the loop variable, c: constant} of an index expression, or die"""
+        k = e[0]
+        if k == 'num':
+            return {'a': 0, 'i': 0, 'c': e[1]}
+        if k == 'id' and e[1] == var:
+            return {'a': 0, 'i': 1, 'c': 0}
+        if (k == 'id' and e[1] in arity_names) or e == ('call', ('member', ('id', 'method'), 'arity', False), []):
+            return {'a': 1, 'i': 0, 'c': 0}
+        if k == 'bin' and e[1] in ('+', '-'):
+            l, r = lin(e[2], var), lin(e[3], var)
+            sg = 1 if e[1] == '+' else -1
+            return {x: l[x] + sg * r[x] for x in 'aic'}
+        if k == 'bin' and e[1] == '*':
+            l, r = lin(e[2], var), lin(e[3], var)
+            for u, v in ((l, r), (r, l)):
+                if u['a'] == 0 and u['i'] == 0:
+                    return {x: u['c'] * v[x] for x in 'aic'}
+        die('pattern offsets (AST): index expression not linear in (arity, %s): %s' % (var, mc.show(e)))
+
+    def find_index(node):
+        """the index expressions of every method.slots_strides_ptr[...] inside node"""
+        out = []
+        if isinstance(node, tuple):
+            if node and node[0] == 'index' and node[1] == ('member', ('id', 'method'), 'slots_strides_ptr', False):
+                out.append(node[2])
+            for x in node:
+                out += find_index(x)
+        elif isinstance(node, list):
+            for x in node:
+                out += find_index(x)
+        return out
+
+    top = [x for x in ast[1] if x != ('using',)]
+    loops = []
+    first_reads = []
+
+    def walk(stmts, in_if):
+        for st in stmts:
+            if st[0] == 'decl' and len(st[2]) == 1 and st[2][0][1] == ('call', ('member', ('id', 'method'), 'arity', False), []):
+                arity_names.add(st[2][0][0])
+                continue
+            if st[0] == 'for':
+                loops.append((st, in_if))
+            elif st[0] == 'if' and not st[1]:
+                c = st[2]
+                ok = c[0] == 'bin' and c[1] == '>' and lin(c[2], '?') == {'a': 1, 'i': 0, 'c': 0} and c[3] == ('num', 1)
+                if not ok or st[4] is not None:
+                    die('pattern offsets (AST): the guard of the multi-method part is no longer `if (arity > 1)` without else: ' + mc.show(c))
+                walk(st[3][1] if st[3][0] == 'block' else [st[3]], True)
+            elif st[0] == 'block':
+                walk(st[1], in_if)
+            else:
+                if not in_if:
+                    first_reads.extend(find_index(st))
+    walk(top, False)
+    if first_reads != [('num', 0)]:
+        die('pattern offsets (AST): outside the loops exactly slots_strides_ptr[0] must be printed, found %s' % mc.show(first_reads))
+    if len(loops) != 2 or not all(inif for _, inif in loops):
+        die('pattern offsets (AST): expected two loops under `if (arity > 1)`, found %d' % len(loops))
+    forms, texts = [], []
+    for st, _ in loops:
+        init, cond, step, bodyst = st[1], st[2], st[3], st[4]
+        if not (init and init[0] == 'decl' and len(init[2]) == 1 and init[2][0][1] is not None):
+            die('pattern offsets (AST): loop without `T i = <start>`: ' + mc.show(init))
+        var = init[2][0][0]
+        if not (cond and cond[0] == 'bin' and cond[1] == '<' and cond[2] == ('id', var)):
+            die('pattern offsets (AST): loop condition is not `%s < <end>`: %s' % (var, mc.show(cond)))
+        if step not in (('post', '++', ('id', var)), ('un', '++', ('id', var))):
+            die('pattern offsets (AST): loop step is not ++%s: %s' % (var, mc.show(step)))
+        A, B = lin(init[2][0][1], var), lin(cond[3], var)
+        if A['i'] or B['i']:
+            die('pattern offsets (AST): loop bounds mention the loop variable')
+        if (B['a'] - A['a'], B['c'] - A['c']) != (1, -1):
+            die('pattern offsets (AST): the loop does not make arity - 1 iterations (from %r to %r)' % (A, B))
+        idx = find_index(bodyst)
+        if len(idx) != 1:
+            die('pattern offsets (AST): a loop body must print exactly one slots_strides_ptr element, found %d' % len(idx))
+        E = lin(idx[0], var)
+        # i = i' + (A - 1):  E'(i') = E.a * arity + E.i * (i' + A.a * arity + A.c - 1) + E.c
+        forms.append((E['a'] + E['i'] * A['a'], E['i'], E['c'] + E['i'] * (A['c'] - 1)))
+        texts.append('%s for %s in [%s, %s)' % (mc.show(idx[0]), var, mc.show(init[2][0][1]), mc.show(cond[3])))
+    return forms[0], forms[1], texts[0], texts[1]
+
+
 def main():
     d = strip_comments(read(DEC))
     g = strip_comments(read(GEN))
@@ -97,12 +194,11 @@ def main():
     one('entry_spec_cell', r'os << uint16_t\(spec->spec_index \| stop\);', g, GEN)
     one('entry_group_cell', r'os << uint16_t\(entry\.group_index \| stop\);', g, GEN)
     one('dtbl_last_cell', r'\*dt_iter = \(uint16_t\)last->spec_index \| stop_bit;', g, GEN)
-    # ---- generator.hpp: write_static_offsets index expressions
-    one('offsets_slot0', r'os << method\.slots_strides_ptr\[0\];', g, GEN)
-    (slot_ix,) = one('offsets_slots',
-                     r'for \(std::size_t i = 1; i < method\.arity\(\); i\+\+\) \{\s*\n\s*os << ", " << method\.slots_strides_ptr\[([^\]]+)\];', g, GEN)
-    (stride_ix,) = one('offsets_strides',
-                       r'for \(std::size_t i = 1; i < method\.arity\(\); i\+\+\) \{\s*\n\s*os << comma << method\.slots_strides_ptr\[([^\]]+)\];', g, GEN)
+    # ---- generator.hpp: write_static_offsets, read from its AST (translators/_minicpp.py): the first slot, then two loops
+    # under `if (arity > 1)`.  Each loop `for (i = A; i < B; i++) os << ... << slots_strides_ptr[E(i)]` is normalised to the
+    # canonical one the model knows, `for (i' = 1; i' < arity; i'++) ... [E'(i')]`, by the substitution i = i' + (A - 1),
+    # which is only done when B - A = arity - 1 (all linear forms in arity); what is emitted is E'.
+    slot_form, stride_form, slot_ix, stride_ix = offsets_loops(g)
     # ---- core.hpp: the debug cross-check
     (chk_slot_ix, chk_stride_ix) = one(
         'check_next',
@@ -122,8 +218,8 @@ def main():
             die('pattern %s: index expression %r is not one the model knows (%s)' % (name, expr, ', '.join(sorted(forms))))
         return forms[e]
 
-    sa, si, sc = linear('offsets_slots', slot_ix, 'i')
-    ta, ti, tc = linear('offsets_strides', stride_ix, 'i')
+    sa, si, sc = slot_form
+    ta, ti, tc = stride_form
     ca, ci, cc = linear('check_next(slot)', chk_slot_ix, 'VirtualArg')
     da, di, dc = linear('check_next(stride)', chk_stride_ix, 'VirtualArg')
 
